@@ -163,9 +163,12 @@ def run(ctx, replay):
                         simulate=(5 if quick else 40), depth=9, seed=ctx.seed)
     hists.append([{"op": "receive", "b": 2}, {"op": "receive", "b": 4}, {"op": "remove", "bs": [2]}, {"op": "receive", "b": 6},
                   {"op": "receive", "b": 2}, {"op": "remove", "bs": [4, 6]}, {"op": "receive", "b": 8}, {"op": "receive", "b": 4}])
+    # duplicate receives of acknowledged blobs (a crash inside one must leave the acknowledged copy alone)
+    hists.append([{"op": "receive", "b": 2}, {"op": "receive", "b": 2}, {"op": "receive", "b": 4}, {"op": "remove", "bs": [2]},
+                  {"op": "receive", "b": 4}, {"op": "receive", "b": 2}, {"op": "receive", "b": 2}])
     hf = ctx.path("h.jsonl")
     vlib.write_jsonl(hf, hists)
-    ctx.sample({"history": hists[-1]})
+    ctx.sample({"history": hists[-2]})
     tot_s = tot_e = 0
     # files
     fo, vo = ctx.path("files.ndjson"), ctx.path("vfs.ndjson")
